@@ -556,6 +556,26 @@ func TestVerifC29(t *testing.T) {
 				continue
 			}
 			// ---- correspondence case (default scorer)
+			// A large boost absorbs the tie-breaking terms: files whose scores differ exactly get bit-equal binary64 scores
+			// and sort.Sort leaves them in an unspecified order.  The model's comparison tolerates that (rank-wise and
+			// identity-wise score agreement) unless boostNovelExtension is active (> 3 files): which file is promoted depends
+			// on which of the tied files sit in the first two places, i.e. on the unspecified order.  Those results are
+			// checked by the oracles above only.
+			if len(off1) > 3 {
+				seen := map[uint64]bool{}
+				tie := false
+				for _, f := range off1 {
+					b := math.Float64bits(f.Score)
+					if seen[b] {
+						tie = true
+					}
+					seen[b] = true
+				}
+				if tie {
+					stats["skipped:binary64-file-score-ties-with-promotion-active"]++
+					continue
+				}
+			}
 			attributable := true
 			build := func(fs []zoekt.FileMatch) (string, []string) {
 				var obs, descs []string
